@@ -71,6 +71,23 @@ class C15(SpecValueCheck):
                     lens = [0, 1, 126, 127, 128, 255, 256, 65535, 65536] if tier == 'quick' else \
                         [0, 1, 120, 125, 126, 127, 128, 250, 255, 256, 65530, 65535, 65536, 70000]
                     cases.append((name, [b'\x77' * n for n in lens]))
+        # an absent OPTIONAL / DEFAULT component with a tag of three or more octets followed by fewer octets than that
+        # tag is long: where the message ends must not depend on how many bytes follow it
+        for j, num in enumerate((128, 5000, 20000, 3000000)):
+            big = Tag('CONTEXT', num, None)
+            m.types.append(('Q%da' % j, Ty('SEQUENCE', root=[Member('a', Ty('INTEGER', tag=big), optional=True),
+                                                              Member('b', Ty('NULL'))])))
+            cases.append(('Q%da' % j, [{'b': None}, {'a': 5, 'b': None}]))
+            m.types.append(('Q%db' % j, Ty('SEQUENCE', root=[
+                Member('a', Ty('BOOLEAN', tag=Tag('CONTEXT', num, 'EXPLICIT')), has_default=True, default=True,
+                       default_txt='TRUE'), Member('b', Ty('BOOLEAN', tag=Tag('CONTEXT', 0, None)))])))
+            cases.append(('Q%db' % j, [{'a': True, 'b': False}, {'a': False, 'b': True}]))
+            m.types.append(('Q%dc' % j, Ty('SET', root=[Member('a', Ty('INTEGER', tag=big), optional=True),
+                                                         Member('b', Ty('INTEGER', tag=Tag('CONTEXT', 1, None)))])))
+            cases.append(('Q%dc' % j, [{'b': 3}, {'a': -1, 'b': 3}]))
+            m.types.append(('Q%dd' % j, Ty('SEQUENCE', root=[Member('a', Ty('INTEGER', tag=big), optional=True),
+                                                              Member('b', Ty('OCTET STRING'))])))
+            cases.append(('Q%dd' % j, [{'b': b''}, {'b': b'\x5a'}, {'b': b'\x5a' * 300}]))
         spec = Spec([m])
         return [(spec, [('M', name, vals)]) for name, vals in cases]
 
@@ -81,8 +98,18 @@ class C15(SpecValueCheck):
         m = bytes(m)
         try:
             d0 = x.c.decode(x.name, m)
-        except Exception:
-            x.rec.cls('own-output-undecodable(C01)')
+        except Exception as ex0:
+            # the decoder rejects the library's own output (C01's business) - unless the framing helper accepts the
+            # very same message once enough bytes follow it: then the two disagree about where the message ends
+            x.rec.ev()
+            try:
+                d, length = x.c.decode_with_length(x.name, m + b'\x00' * 16)
+            except Exception:
+                x.rec.cls('own-output-undecodable(C01)')
+                return
+            x.fail('helper-disagrees-with-decoder', 'decode(m) raised %s: %s but decode_with_length(m + 16 zero octets) '
+                   'returned length %d of %d; m=%s' % (type(ex0).__name__, str(ex0)[:100], length, len(m),
+                                                       m.hex()[:120]), tail='00' * 16)
             return
         n = len(m)
         try:
